@@ -387,7 +387,7 @@ PROPS = {
                        "trailers) x destination buffer sequences; metamorphic oracle (decoded bytes == payload, terminal io.EOF, independent of "
                        "fragmentation) and negative oracle by field class (xor of any byte, truncation anywhere, hostile size fields, dropped "
                        "or exchanged chunks; no panic, no allocation sized by the input). The encoder is the harness' own, validated against "
-                       "the worked examples of the AWS SigV4 streaming documentation."),
+                       "the worked examples of the AWS SigV4 streaming documentation. Layer P decodes two valid streams side by side, their Read calls alternating in a generated pattern (one goroutine, the pattern is the schedule): what one reader yields must not depend on the other."),
         "level_note": "reader level (layer A); the end-to-end share (real PUTs with fragmented chunked bodies) lives in C01/C06. Exploration only.",
         "rule": ("cases = (mode, algo, payload length, chunk sizes, fragments, buffers, eof-with-data, negative kind). Non-trivial: valid stream "
                  "with a read boundary inside a chunk header/trailer, or a mutant of a verified field (data, chunk signature, checksum, "
@@ -397,6 +397,7 @@ PROPS = {
         "jobs": [
             {"run": "TestC12Valid", "quick": 160000, "thorough": 5000000, "shards_quick": 8, "shards_thorough": 16},
             {"run": "TestC12Negative", "quick": 160000, "thorough": 5000000, "shards_quick": 8, "shards_thorough": 16},
+            {"run": "TestC12Pair", "quick": 40000, "thorough": 1000000, "shards_quick": 4, "shards_thorough": 16},
         ],
         "fuzz": [{"target": "FuzzC12", "seconds": 600}],
     },
